@@ -41,13 +41,14 @@ def parse(L, data, opts=None, target='new', err_policy='accept', handler_program
         def ecb(code, line, col, text, length, data_):
             try:
                 idx = len(res.errors)
-                # the same error at the same place, ten thousand times in a row: the parser is not consuming its
-                # input (it would go on until memory runs out); stop the parse and say so
+                # the same error at the same place more often in a row than the input has bytes (unwinding N unclosed
+                # brackets at the end of the input legitimately reports N times at one place): the parser is not
+                # consuming its input and would go on until memory runs out; stop the parse and say so
                 if res.errors and res.errors[-1] == (code, line, col, length):
                     rep[0] += 1
-                    if rep[0] > 10000:
-                        if rep[0] == 10001:
-                            res.problems.append(('parse:no-progress:%d' % code, 'error %d was reported more than 10000 times in a row at line %d column %d: the parse does not advance' % (code, line, col)))
+                    if rep[0] > len(data) + 10000:
+                        if rep[0] == len(data) + 10001:
+                            res.problems.append(('parse:no-progress:%d' % code, 'error %d was reported %d times in a row at line %d column %d for an input of %d bytes: the parse does not advance' % (code, rep[0], line, col, len(data))))
                         return 7777
                 else:
                     rep[0] = 0
